@@ -1,0 +1,29 @@
+//go:build verif
+
+package transport_controller
+
+import "io"
+
+// This file is only compiled with the "verif" build tag. It exports
+// unexported identifiers to the verification harness in /verif and adds no
+// behavior.
+
+// VerifReadStreamEstablishHeader calls readStreamEstablishHeader.
+func VerifReadStreamEstablishHeader(r io.Reader) (*StreamEstablish, error) {
+	return readStreamEstablishHeader(r)
+}
+
+// VerifMarshalStreamEstablishHeader calls marshalStreamEstablishHeader.
+func VerifMarshalStreamEstablishHeader(msg *StreamEstablish) []byte {
+	return marshalStreamEstablishHeader(msg)
+}
+
+// VerifWriteStreamEstablishHeader calls writeStreamEstablishHeader.
+func VerifWriteStreamEstablishHeader(w io.Writer, msg *StreamEstablish) (int, error) {
+	return writeStreamEstablishHeader(w, msg)
+}
+
+// VerifStreamEstablishMaxPacketSize returns streamEstablishMaxPacketSize.
+func VerifStreamEstablishMaxPacketSize() uint64 {
+	return streamEstablishMaxPacketSize
+}
